@@ -22,12 +22,42 @@ def plan(tier):
     return qs
 
 
+def pool_plan(tier):
+    """(c) ThreadPool: owner program x expiry setting; happens-before monitor over the pool object, the objects it allocates and the submitted tasks"""
+    from checks import pool_common as PC
+    progs = [((1,), -1, 26, 'stop'), ((1, 6, 5), 0, 24, 'expiry')] if tier == 'quick' else [((1,), -1, 26, 'stop'), ((1, 6, 5), 0, 26, 'expiry'), ((1, 1, 6), 0, 30, 'expiry2')]
+    qs = []
+    for ops, expiry, K, tag in progs:
+        q = PC.pool_query('hb_pool_%s_k%d' % (tag, K), ops, 1, K, prefix_only=True, liveness=False, harness_defs=['HB_MONITOR=1', 'EXPIRY=%d' % expiry], expect_reach=())
+        q.rt = list(RT_HB)
+        q.ll2c_kw = dict(q.ll2c_kw, acc_prefixes=('',))
+        q.cbmc_defines = q.cbmc_defines + ['VF_HB=1', 'VF_NEW_HOOK=1', 'NTRACK=12']
+        q.required_reach = ['the watched byte is accessed by two different threads']
+        q.unwindset = q.unwindset + ['__vf_acc.0:14', '__vf_hb_track.0:14', 'slot.0:10']
+        q.desc = dict(q.desc, component='ThreadPool + Thread', expiry_timeout=expiry, symbolic='the schedule (%d thread choices), the clock, and the watched byte (any byte of the pool, its worker/runnable/thread-state objects and the tasks)' % K)
+        q.native_racy = {}
+        qs.append(q)
+    return qs
+
+
 class C15Check(ResCheck):
     def confirm(self, q, path):
         """native confirmation of a race on the Resource: the same thread programs on real threads under ThreadSanitizer"""
         import subprocess, json
         from vflib import core
         rp = json.load(open(path))
+        if 'h_pool' in ' '.join(rp['harness']):
+            exe = self.ws.path('tsan_' + os.path.basename(path).replace('.json', ''))
+            exp = [d for d in rp['defines'] if d.startswith('EXPIRY=')]
+            srcs = [os.path.join(VERIF, 'harness', 'h_pool_tsan.cpp')] + [os.path.join(core.REPO, s_) for s_ in ('src/threading/ThreadPool.cpp', 'src/threading/Thread.cpp', 'src/threading/Runnable.cpp')]
+            r = subprocess.run(['g++', '-std=c++20', '-g', '-O1', '-fsanitize=thread', '-I', os.path.join(core.REPO, 'include')] + ['-D' + d for d in exp] + srcs + ['-o', exe, '-lpthread'], capture_output=True, text=True)
+            if r.returncode != 0:
+                raise core.BrokenCheck('TSan confirmation build failed:\n' + r.stderr[-2000:])
+            try:
+                r = subprocess.run([exe], capture_output=True, text=True, errors='replace', timeout=120, env=dict(os.environ, TSAN_OPTIONS='exitcode=66 halt_on_error=1'))
+            except subprocess.TimeoutExpired:
+                return False, 'TSan confirmation timed out (the stress program hung)'
+            return r.returncode == 66, 'exit=%d (ThreadSanitizer on the real build, owner/worker stress program)\n%s' % (r.returncode, r.stderr[-2500:])
         exe = self.ws.path('tsan_' + os.path.basename(path).replace('.json', ''))
         defs = ['-D' + d for d in rp['defines'] if d[:2] in ('P0', 'P1', 'P2', 'P3')]
         srcs = [os.path.join(VERIF, 'harness', 'h_res_tsan.cpp'), os.path.join(core.REPO, 'src/threading/rwp/Resource.cpp')]
